@@ -104,6 +104,18 @@ def check(P: Project, R: Report) -> None:
         d = wait.param_default(a) if a in wait.params() else None
         v = try_fold(P, wait.module, d) if d is not None else try_fold(P, wait.module, ast.parse(a, mode="eval").body)
         overridden = a in W.binding
+        if overridden and isinstance(W.binding[a], ast.Name) and W.binding[a].id in send.params():
+            # handed down from the public entry point's own parameter: still "one polling interval" if that parameter has a
+            # finite positive constant default and every path to the wait has refused a non-positive value
+            p_ = W.binding[a].id
+            dv_ = try_fold(P, send.module, send.param_default(p_)) if send.param_default(p_) is not None else None
+            guards_ = {f"{p_} > 0", f"not {p_} <= 0", f"0 < {p_}", f"not 0 >= {p_}"}
+            waits_ = [st for st, _n in W.sout.ret if any(e.startswith("wait:") for e in st.events)] + [st for st, _t, _n in W.sout.exc if any(e.startswith("wait:") for e in st.events)]
+            reassigned_ = any(isinstance(x, ast.Name) and x.id == p_ and isinstance(x.ctx, ast.Store) for x in walk_local(send.node))
+            if isinstance(dv_, (int, float)) and not isinstance(dv_, bool) and 0 < dv_ < float("inf") and waits_ and all(guards_ & set(st.lits) for st in waits_) and not reassigned_:
+                overridden = False
+                v = dv_
+                detail += f"; {a} is send_message's own `{p_}` (default {dv_}, non-positive values refused)"
         if isinstance(v, (int, float)) and not isinstance(v, bool) and 0 < v < float("inf") and not overridden:
             bounded = True
             R.extra["poll_interval_s"] = v
